@@ -521,6 +521,92 @@ Proof.
   inversion H. apply dedupe_NoDup.
 Qed.
 
+(* ---- resolve(): the result does not depend on how a configured directory is spelled ---- *)
+Definition plain_seg (s : str) : Prop := str_eqb s [DOT] = false /\ str_eqb s DOTDOT = false.
+
+Lemma fold_segs_plain p : forall acc, Forall plain_seg p -> fold_segs acc p = rev acc ++ p.
+Proof.
+  induction p as [|s r IH]; intros acc H; simpl.
+  - symmetry. apply app_nil_r.
+  - inversion H as [|? ? [H1 H2] Hr]; subst. rewrite H1, H2, (IH _ Hr). simpl. rewrite <- app_assoc. reflexivity.
+Qed.
+
+Lemma Forall_tl {A} (P : A -> Prop) l : Forall P l -> Forall P (tl l).
+Proof. intros H. destruct l; [exact H | inversion H; assumption]. Qed.
+
+Lemma fold_segs_result_plain p : forall acc, Forall plain_seg acc -> Forall plain_seg (fold_segs acc p).
+Proof.
+  induction p as [|s r IH]; intros acc H; simpl.
+  - apply Forall_rev. exact H.
+  - destruct (str_eqb s [DOT]) eqn:E1; [apply IH; exact H|].
+    destruct (str_eqb s DOTDOT) eqn:E2; [apply IH; apply Forall_tl; exact H|].
+    apply IH. constructor; [split; assumption | exact H].
+Qed.
+
+(* a spelling without "." / ".." is left alone; the result of resolve() never contains them; idempotent *)
+Lemma resolve_canonical_lemma p : Forall plain_seg p -> resolve_path p = p.
+Proof. intros H. unfold resolve_path. rewrite fold_segs_plain by exact H. reflexivity. Qed.
+
+Lemma resolve_plain_lemma p : Forall plain_seg (resolve_path p).
+Proof. apply fold_segs_result_plain. constructor. Qed.
+
+Lemma resolve_idem_lemma p : resolve_path (resolve_path p) = resolve_path p.
+Proof. apply resolve_canonical_lemma. apply resolve_plain_lemma. Qed.
+
+(* "." anywhere, and "x/.." for a proper name x anywhere, change nothing *)
+Lemma fold_segs_app a b : forall acc, fold_segs acc (a ++ b) = fold_segs (rev (fold_segs acc a)) b.
+Proof.
+  induction a as [|s r IH]; intros acc; simpl.
+  - rewrite rev_involutive. reflexivity.
+  - destruct (str_eqb s [DOT]); [apply IH|]. destruct (str_eqb s DOTDOT); apply IH.
+Qed.
+
+Lemma resolve_dot_segment_lemma a b : resolve_path (a ++ [DOT] :: b) = resolve_path (a ++ b).
+Proof. unfold resolve_path. rewrite !fold_segs_app. reflexivity. Qed.
+
+Lemma resolve_updown_lemma a x b : plain_seg x -> resolve_path (a ++ x :: DOTDOT :: b) = resolve_path (a ++ b).
+Proof.
+  intros [H1 H2]. unfold resolve_path. rewrite !fold_segs_app. cbn [fold_segs]. rewrite H1, H2.
+  change (str_eqb DOTDOT [DOT]) with false. change (str_eqb DOTDOT DOTDOT) with true. cbn iota. reflexivity.
+Qed.
+
+Lemma valid_dirs_canon l : valid_dirs (map canon_entry l) = valid_dirs l.
+Proof.
+  induction l as [|e r IH]; [reflexivity|]. cbn [map valid_dirs]. unfold canon_entry at 1. cbn [unwrap].
+  destruct (unwrap e) as [p| |]; cbn [canon_pval]; rewrite ?IH, ?resolve_idem_lemma; reflexivity.
+Qed.
+
+Lemma configured_canon w : valid_dirs (configured (canon_world w)) = valid_dirs (configured w).
+Proof.
+  unfold configured, canon_world. cbn [w_dirs w_static w_base].
+  destruct (w_dirs w) as [d|]; cbn [option_map].
+  - apply valid_dirs_canon.
+  - destruct (w_static w) as [|e r]; [reflexivity|]. apply (valid_dirs_canon (e :: r)).
+Qed.
+
+Lemma dirs_canon_lemma w ia : get_component_dirs (canon_world w) ia = get_component_dirs w ia.
+Proof. unfold get_component_dirs. rewrite configured_canon. reflexivity. Qed.
+
+Lemma files_canon_lemma w suffix : get_component_files (canon_world w) suffix = get_component_files w suffix.
+Proof. unfold get_component_files. rewrite dirs_canon_lemma. reflexivity. Qed.
+
+(* two configurations that differ only in the spelling of their directories ("."/".." segments, tuple or plain) *)
+Definition same_but_spelling (w1 w2 : world) : Prop :=
+  w_root w1 = w_root w2 /\ w_base w1 = w_base w2 /\ w_app_dirs w1 = w_app_dirs w2 /\ w_apps w1 = w_apps w2 /\
+  option_map (map canon_entry) (w_dirs w1) = option_map (map canon_entry) (w_dirs w2) /\
+  map canon_entry (w_static w1) = map canon_entry (w_static w2).
+
+Lemma spelling_invariance_lemma w1 w2 :
+  same_but_spelling w1 w2 ->
+  (forall suffix, get_component_files w1 suffix = get_component_files w2 suffix) /\
+  (forall ia, get_component_dirs w1 ia = get_component_dirs w2 ia).
+Proof.
+  intros [H1 [H2 [H3 [H4 [H5 H6]]]]].
+  assert (E : canon_world w1 = canon_world w2) by (unfold canon_world; rewrite H1, H2, H3, H4, H5, H6; reflexivity).
+  split; [intros suffix; rewrite <- (files_canon_lemma w1), <- (files_canon_lemma w2), E; reflexivity|].
+  intros ia. rewrite <- (dirs_canon_lemma w1), <- (dirs_canon_lemma w2), E. reflexivity.
+Qed.
+
 (* ================================================================================== *)
 (* D. the dot path                                                                    *)
 (* ================================================================================== *)
